@@ -122,8 +122,10 @@ def gen_gate_case(rng, dist, big_portfolio=False):
     coll = idx[:n_coll]
     debt = idx[n_coll:n_coll + n_debt]
     spare = idx[n_coll + n_debt:]
-    feat = rng.choice(["plain", "plain", "emode", "emode", "isolated", "reduce_only", "stale", "wrong_oracle", "discount",
+    feat = rng.choice(["plain", "plain", "emode", "emode", "isolated", "two_isolated", "reduce_only", "stale", "wrong_oracle", "discount",
                        "conf_too_wide", "price_move", "liab_stale"])
+    if feat == "two_isolated" and len(debt) < 2:
+        feat = "isolated"
     dist[feat] = dist.get(feat, 0) + 1
     if big_portfolio:
         dist["16-positions"] = dist.get("16-positions", 0) + 1
@@ -142,6 +144,11 @@ def gen_gate_case(rng, dist, big_portfolio=False):
         banks[iso_bank]["tier"] = 1
         if rng.random() < 0.7:
             banks[iso_bank]["awi"] = banks[iso_bank]["awm"] = 0
+    if feat == "two_isolated":
+        # two isolated-tier debt banks (one already borrowed from, the other probed), sometimes an ordinary one as well:
+        # a second isolated debt must be refused whatever the order of the banks in the account
+        banks[debt[0]]["tier"] = 1
+        banks[debt[-1]]["tier"] = 1
     na = 3
     pf = [rng.randrange(2), G.fx(Fraction(rng.randrange(0, 200), 10000)), G.fx(Fraction(rng.randrange(0, 500), 10000))]
     pred = R.Pred(banks, orcs, na, now)
@@ -402,6 +409,8 @@ def gen_liq_case(rng, dist):
         v = Fraction(n) * px[ab]["rt"][0] / 10 ** da
         q = v * 10 ** dl / px[lb]["rt"][1]
         relief = int(q * Fraction(95, 100) * ONE)
+        if feat == "too_severe" and pred.lshares(lb, relief) >= pred.pos[1].get(lb, [0, 0])[1]:
+            return Fraction(1)          # the debt would be exhausted (positions are clamped at 0): outside the bisected region
         hh, _ = pred.maint_health(1, {ab: (-pred.ashares(ab, n), 0), lb: (0, -pred.lshares(lb, relief))})
         return hh
     fams = []
